@@ -88,6 +88,24 @@ def _seeded_3d(rng, box, n):
     return out
 
 
+def _report(ctx, per, clause, record, detail):
+    """ctx.violation, but at most CAP replay files per clause (known findings are always routed through so
+    that their hits are counted)."""
+    known = False
+    for k in ctx.known:
+        fn = ctx.matchers.get(k.get("matcher"))
+        try:
+            known = known or (k.get("status", "known") == "known" and fn is not None and bool(fn({"clause": clause, **record})))
+        except Exception:
+            pass
+    if not known:
+        per[clause] = per.get(clause, 0) + 1
+        if per[clause] > CAP:
+            ctx.extra["violations_not_written"] = ctx.extra.get("violations_not_written", 0) + 1
+            return
+    ctx.violation(clause, record, detail)
+
+
 def _judge(ctx, cases, tag):
     verdicts = ctx.judge("J_SegIsect", [_for_tlc(c) for c in cases], CLAUSES, tag=tag, timeout=1500, workers=WORKERS)
     per = {}
@@ -95,14 +113,10 @@ def _judge(ctx, cases, tag):
         case = cases[v["case"] - 1]
         if v["clause"] == "WellFormed":
             raise RuntimeError(f"harness self-check failed on {case['in']}")
-        per[v["clause"]] = per.get(v["clause"], 0) + 1
-        if per[v["clause"]] > CAP and not ctx.known:
-            ctx.extra["violations_not_written"] = ctx.extra.get("violations_not_written", 0) + 1
-            continue
         i = case["in"]
         got = sorted({str(o.get("raw", o["pts"])) for o in case["outs"]})
-        ctx.violation(v["clause"], case,
-                      f"segments_{i['dim']}d {i['a']}-{i['b']} x {i['c']}-{i['d']}: returned point sets {got}"[:400])
+        _report(ctx, per, v["clause"], case,
+                f"segments_{i['dim']}d {i['a']}-{i['b']} x {i['c']}-{i['d']}: returned point sets {got}"[:400])
 
 
 def run(ctx):
